@@ -85,7 +85,11 @@ func (h *hctx) logOf(id uint64) map[ntp.Time64]times {
 	if h.bulkN > 0 && id >= h.bulkBase && id < h.bulkBase+h.bulkN && !h.bulkSeen[id] {
 		h.bulkSeen[id] = true
 		rxt := h.bulkT0 + int64(id-h.bulkBase)*h.bulkStep
-		h.log[id] = map[ntp.Time64]times{t64(rxt): {rxt, rxt + h.bulkD}}
+		txt := rxt + h.bulkD
+		if !(rxt < txt) {
+			txt = rxt + 1
+		}
+		h.log[id] = map[ntp.Time64]times{t64(rxt): {rxt, txt}}
 	}
 	m := h.log[id]
 	if m == nil {
